@@ -1,7 +1,7 @@
 (* C01: FEB words behave as atomic full/empty cells.  Statements only; proofs in Feb/Proofs.v, Feb/ProxyProofs.v, Cell/Proofs.v *)
 From Coq Require Import List ZArith NArith Bool Permutation.
 Import ListNotations.
-From QV Require Import Cell.Spec Cell.Proofs Feb.Model Feb.Proofs Feb.GenProxy Feb.ProxyProofs.
+From QV Require Import Cell.Spec Cell.Proofs Feb.Model Feb.Proofs Feb.GenProxy Feb.ProxyProofs Feb.NoDup.
 
 (* every reachable state (any list of (task, call) steps on any words, spawns included) keeps the queue discipline:
    full -> FEQ = FFQ = FFWQ = [], not full -> EFQ = [] *)
@@ -10,6 +10,23 @@ Theorem feb_inv : forall (l : list (N * gop)) (a : N) (r : rec),
   (r_full r = true -> r_FEQ r = [] /\ r_FFQ r = [] /\ r_FFWQ r = []) /\ (r_full r = false -> r_EFQ r = []).
 Proof. intros l a r H. pose proof (feb_inv_reachable l a r H) as I. split; apply I. Qed.
 Print Assumptions feb_inv.
+
+(* a task id is blocked on at most one waiter list of at most one word, in every reachable state.  Scripts are arbitrary:
+   a call issued by a task that is blocked is not executed (step_blocked_skip; the harness does the same), which is the
+   well-formedness condition "a blocked task issues no call" built into exec *)
+Theorem blocked_call_skipped : forall s t g, is_blocked s t = true -> step s t g = (s, [Skip t]).
+Proof. exact step_blocked_skip. Qed.
+Print Assumptions blocked_call_skipped.
+
+Theorem feb_inv_blocked_once : forall (l : list (N * gop)),
+  NoDup (blocked_tids (exec l)) /\
+  (forall a r, lookup a (st_febs (exec l)) = Some r -> NoDup (map w_tid (waiters_of r))) /\
+  (forall a b r r' t, lookup a (st_febs (exec l)) = Some r -> lookup b (st_febs (exec l)) = Some r' ->
+     In t (map w_tid (waiters_of r)) -> In t (map w_tid (waiters_of r')) -> a = b).
+Proof.
+  intros l. split; [exact (blocked_once_reachable l)|]. split; [exact (one_list_reachable l) | exact (one_word_reachable l)].
+Qed.
+Print Assumptions feb_inv_blocked_once.
 
 (* one call = one atomic step of the abstract cell, then the released waiters' operations, each enabled where it
    stands, with the specification's values; a call that has to wait changes nothing and only enqueues the caller *)
